@@ -181,7 +181,7 @@ def run(ctx):
             "tf add 1 2", "tf sha256", "tf sha256 abc", "tf bech32-decode x", "tf base58chk-decode x", "tf addr-to-scriptpubkey x", "tf jacobi-symbol 0", "tf nosuch 1",
             "tf int 0x0102030405060708090a", "tf hex -1", "tf reverse", "tf tagged-hash a", "help", "", "exec OP_IF", "exec OP_ENDIF", "tf scriptpubkey-to-addr 0x00"]
     for rep in range(25 if quick else 500):
-        seq = "\n".join(rnd.choice(cmds) for _ in range(rnd.randrange(1, 12))) + "\n"
+        seq = "\n".join(rnd.choice(cmds) for _ in range(rnd.randrange(1, 12))) + "\n\x04"     # ^D ends the session
         job("btcdeb", [rnd.choice(scripts[:12])] + rnd.choice(([], ["0x01"], ["-z"])), "tty", "tty", seq)
     def one(j):
         tool, argv, si, so, inp = j
@@ -197,6 +197,9 @@ def run(ctx):
     for j, (rc, out, err) in zip(jobs, res):
         key = "%s rc=%s" % (j[0], rc)
         hist[key] = hist.get(key, 0) + 1
+        if rc == -9 and j[2] == "tty":
+            hist["(interactive session did not end at ^D: killed by the runner)"] = hist.get("(interactive session did not end at ^D: killed by the runner)", 0) + 1
+            continue
         crashed = rc < 0 or rc in (98, 99) or rc >= 128 or "Sanitizer" in err or "runtime error:" in err or "Sanitizer" in out or "runtime error:" in out or "terminate called" in err
         if crashed:
             nbad += 1
